@@ -283,6 +283,14 @@ def showNAnn (a : NAnn) : String :=
     s!" {g.1} {g.2.length}" ++ String.join (g.2.map (fun e =>
       s!" {e.1} " ++ " ".intercalate ((legRL e.2).map showQ) ++ " " ++ " ".intercalate ((curRL e.2).map showQ)))))
 
+/-- the hypotheses of `view_free` on the designated view of the running cycle (printed only when violated) -/
+def cycViewHyp (s : TState) (c : PState) : List String :=
+  match c.designated with
+  | none => []
+  | some des =>
+    let fd := calcFree s [] des
+    if nodupB (fd.map (·.1)) && amountsOK fd then [] else ["viewhyp 0"]
+
 def runLine (d : DState) (line : String) : DState × List String :=
   let n := d.node
   match toks line with
@@ -427,7 +435,7 @@ def runLine (d : DState) (line : String) : DState × List String :=
       | some (ms, desired, req) =>
         let a : AllocReq := { req := req, desired := desired, npcie := 0, required := [], preferred := [] }
         let (c', v) := cycFilter (nodeGet n 0) ms a d.pst
-        ({ d with pst := c' }, [s!"filter {if v then 1 else 0}"])
+        ({ d with pst := c' }, cycViewHyp (nodeGet n 0) d.pst ++ [s!"filter {if v then 1 else 0}"])
       | none => (d, ["bad-op"])
     else if kind = "cyr" then
       match (do
@@ -443,7 +451,8 @@ def runLine (d : DState) (line : String) : DState × List String :=
           let w := cycView (nodeGet n 0) ms d.pst
           let code := checkResult w a res
           ({ d with pst := { d.pst with result := res } },
-            if code = 0 then [showAlloc false res] ++ covLine w a res else [s!"alloc inconsistent {code}"])
+            cycViewHyp (nodeGet n 0) d.pst ++
+            (if code = 0 then [showAlloc false res] ++ covLine w a res else [s!"alloc inconsistent {code}"]))
         | some stale => (d, [showAlloc false (some stale)])
       | none => (d, ["bad-op"])
     else if kind = "rvadd" || kind = "rvdel" then
